@@ -276,7 +276,11 @@ pixman_glyph_cache_insert (pixman_glyph_cache_t  *cache,
     width = image->bits.width;
     height = image->bits.height;
 
-    if (cache->n_glyphs >= HASH_SIZE)
+    /* Always keep at least one slot empty: lookup_glyph() only stops
+     * probing for an absent key when it reaches an empty slot, and
+     * tombstones do not count as empty.
+     */
+    if (cache->n_glyphs + cache->n_tombstones >= HASH_SIZE - 1)
 	return NULL;
 
     if (!(glyph = malloc (sizeof *glyph)))
